@@ -72,6 +72,7 @@ type Exec struct {
 	wordBytesOf  map[*Term][]*Term       // base-256 digits introduced for a word (byteOfWord)
 	written      map[*Obj]map[int]string // cells of pre-existing objects stored to on this path (-> where first)
 	lastWhere    string
+	invProj      bool               // also generate the invariant projections of the postconditions
 	evalOverride map[ast.Expr]Value // argument values fixed at a defer statement (deferred builtins)
 	brLabel      string             // label of the break/continue being propagated ("" = innermost)
 	pendingLabel string             // label of the statement about to be executed
